@@ -33,7 +33,8 @@ def inputs(ctx, tier):
     ]
     if not q:
         L += [
-            ("single200", dict(kind="manysamples", samples=50, chroms=4, len=150, single=True), dict(k=9, seg=50, mm=15)),
+            # (200 contigs in one file exceed what TLC's evaluator can recurse through when it builds the producer script: 150)
+            ("single150", dict(kind="manysamples", samples=50, chroms=3, len=150, single=True), dict(k=9, seg=50, mm=15)),
             ("multi_rc", dict(kind="rc", samples=6, chroms=3, len=1200, single=False), dict(k=13, seg=150, mm=18)),
             ("single51", dict(kind="basic", samples=17, chroms=3, len=300, single=True), dict(k=9, seg=50, mm=15)),
             ("single24_l2", dict(kind="basic", samples=8, chroms=3, len=300, single=True), dict(k=9, seg=50, mm=15, pack=2)),    # a token round every 2 contigs
@@ -51,7 +52,7 @@ def configs(tier, largest):
         for ci, cap in enumerate(caps):
             if q and (ti + ci) % 2 == 1:
                 continue
-            nper = 1 if q else 3
+            nper = 1 if q else 2
             for s in range(nper):
                 out.append((t, cap, 0 if (s == 0 and t == 1) else 1 + s + 7 * ti + 31 * ci))
     return out
